@@ -216,13 +216,16 @@ def judge(acc, stage_name, mode, msg, hist, obs):
                                 "open-failure" if any(x[0] == 92 for x in o["tx"]) else
                                 "request-failure" if any(x[0] == 82 for x in o["tx"]) else
                                 "unimplemented" if any(x[0] == 3 for x in o["tx"]) else "silence"))
-    if not bad and acc.counters.get("sampled:" + mode, 0) < 2 and (expect == "open" or mode != "plain") \
+    if not bad and _sampled.get(mode, 0) < 2 and (expect == "open" or mode != "plain") \
             and len(acc.samples) < 6:
-        acc.count("sampled:" + mode)
+        _sampled[mode] = _sampled.get(mode, 0) + 1
         acc.sample({"stage": stage_name, "mode": mode, "message": [t, kind, shape], "reply": got,
                     "callbacks": o["cb"], "channels": o["channels"], "server_active_after": o["active"]})
     for k in bad:
         acc.violation(k, detail, replay)
+
+
+_sampled = {}
 
 
 def work(item, acc):
